@@ -704,7 +704,8 @@ def run(ck):
         "and with the spec verdict.  Spec validated against gcc/clang + nm.  distinct_nontrivial counts distinct "
         "(stream, length, outcome, spec verdict, set of storage forms used)."
         % (3 if quick else 4, 2 if quick else 3, 2 if quick else 3, 300 if quick else 3000))
-    ck.lean_build()
+    with ck.phase("lean"):
+        ck.lean_build()
     if not ck.proofs_ok:
         ck.notes.append("Props.C09 does not build; searching for a failing input")
     if not ck.drv_ok:
@@ -713,13 +714,16 @@ def run(ck):
     lean = Lean(ck)
     runner = Runner(ck, cc)
     judge = Judge(ck)
-    run_corpus(ck, lean, runner, judge)
+    with ck.phase("corpus"):
+        run_corpus(ck, lean, runner, judge)
     keep = ([], 0.03 if quick else 0.012)
-    run_exhaustive(ck, lean, runner, judge, "exhaustive-FB", forms("FB"), 3 if quick else 4,
-                   2000 if quick else 20000, keep)
+    with ck.phase("exhaustive-FB"):
+        run_exhaustive(ck, lean, runner, judge, "exhaustive-FB", forms("FB"), 3 if quick else 4,
+                       2000 if quick else 20000, keep)
     keepn = ([], 0.0 if quick else 0.02)
-    run_exhaustive(ck, lean, runner, judge, "exhaustive-nested", forms("FBN"), 2 if quick else 3,
-                   500 if quick else 5000, keepn)
+    with ck.phase("exhaustive-nested"):
+        run_exhaustive(ck, lean, runner, judge, "exhaustive-nested", forms("FBN"), 2 if quick else 3,
+                       500 if quick else 5000, keepn)
     keepl = ([], 0.0 if quick else 0.02)
     if quick:
         run_exhaustive(ck, lean, runner, judge, "exhaustive-labels", forms("FB", ("", "@a", "@b")), 2, 500, keepl)
@@ -734,7 +738,8 @@ def run(ck):
     if not ck.violations:
         pairs = keep[0] + [p for p in keepn[0] if any(f[0] == "N" for f in p[0])] + \
             [p for p in keepl[0] if any("@" in f for f in p[0])]
-        validate_spec(ck, runner, [p[0] for p in pairs], [p[1] for p in pairs], 4000 if quick else 25000)
+        with ck.phase("validate-spec"):
+            validate_spec(ck, runner, [p[0] for p in pairs], [p[1] for p in pairs], 4000 if quick else 25000)
     if not ck.proofs_ok and not ck.violations:
         ck.violation({"kind": "proof-broken", "theorem": "CprocVerif.Props.C09 (lake build failed)",
                       "log": ck.build_log[-3000:]}, nofail=True)
